@@ -120,7 +120,7 @@ let () =
            | "D" -> (match ql_dollar_quote_literal (str ()) with Some o -> ql o | None -> "NONE\t-\t-")
            | "C" -> (match ql_visit_constant u (str ()) with Some o -> ql o | None -> "NONE\t-\t-")
            | "B" -> ql (ql_visit_bytes (ns raw))
-           | "I" -> ql (ql_quote_ident u (fl land 1 <> 0) (fl land 2 <> 0) (fl land 4 <> 0) (str ()))
+           | "I" -> ql (ql_quote_ident u (fl land 1 <> 0) (fl land 2 <> 0) (fl land 4 <> 0) (fl land 8 = 0) (str ()))
            | "P" -> ql (ql_param_to_str u (str ()))
            | "l" -> pg (pg_quote_literal (str ()))
            | "i" -> pg (pg_quote_ident u (fl land 1 <> 0) (fl land 2 <> 0) (str ()))
